@@ -241,8 +241,6 @@ def extended_programs(max_nodes, rich_nodes=4):
                 continue
             if 'c' in ev and ('E' not in ev or ev.index('c') < ev.index('E')):
                 continue
-            if 'D' in ev and 'c' not in ev:
-                continue
             prog = _expand_block(b, [0])
             toks = render.program_tokens(prog)
             if any(t == 'return' and toks[i + 1:i + 2] == ['['] for i, t in enumerate(toks)):
